@@ -6,7 +6,8 @@
    cell by cell on every frame of every generated history.
 
    Modelled: autowrap with the pending-wrap ("last column") state, scrolling DETECTION (flag), wide
-   characters as a left half + continuation cell with repair of split halves, IRM insert mode,
+   characters as a left half + continuation cell with repair of split halves, zero-width (combining)
+   characters joining the previous cell, IRM insert mode,
    EL (erase to end of line) with back-colour-erase, CUP/CR/LF/BS/CUU/CUD/CUF, SGR (16/88/256/true
    colour, bold italics underline blink standout strikethrough), SO/SI with a designated G1,
    SGR 10/11 (IBMPC mapping), DECTCEM cursor visibility. *)
@@ -26,10 +27,10 @@ Definition def_attr : vattr := mkAttr CDef CDef false false false false false fa
 
 (* a cell: code point, width (1, 2; 0 = right half of a wide character, code point -1),
    charset flag (0 = none, 1 = DEC special graphics "0", 2 = IBMPC "U"), attribute *)
-Record cell := mkCell { c_cp : Z; c_w : Z; c_cs : Z; c_at : vattr }.
+Record cell := mkCell { c_cp : Z; c_w : Z; c_cs : Z; c_at : vattr; c_comb : list Z }.
 
-Definition blank_cell : cell := mkCell 32 1 0 def_attr.
-Definition blank_of (c : cell) : cell := mkCell 32 1 (c_cs c) (c_at c).
+Definition blank_cell : cell := mkCell 32 1 0 def_attr [].
+Definition blank_of (c : cell) : cell := mkCell 32 1 (c_cs c) (c_at c) [].
 
 Inductive tok :=
   | TCh (cp w : Z)            (* one printable character and its column width *)
@@ -106,7 +107,7 @@ Fixpoint fix_split (prev_wide : bool) (r : list cell) : list cell :=
 
 (* the cells a printed character of width w occupies (0: none; 2: left half + continuation) *)
 Definition char_cells (cp w cs : Z) (a : vattr) : list cell :=
-  if w =? 0 then [] else mkCell cp w cs a :: (if w =? 2 then [mkCell (-1) 0 cs a] else []).
+  if w =? 0 then [] else mkCell cp w cs a [] :: (if w =? 2 then [mkCell (-1) 0 cs a []] else []).
 
 Definition cur_cs (t : term) : Z :=
   if t_ibm t then 2 else if t_so t && t_g1 t then 1 else 0.
@@ -117,13 +118,32 @@ Definition wrap (t : term) : term :=
     set_scrolled (set_grid (set_pos t 0 (t_y t) false) (dropz 1 (t_grid t) ++ [blank_row (t_cols t)])) true
   else set_pos t 0 (t_y t + 1) false.
 
+(* a zero-width (combining) character joins the character before the cursor - the last one written when
+   the cursor is in the pending-wrap state - and does not advance; with no character before the cursor on
+   the line it is dropped *)
+Definition add_comb (c : cell) (cp : Z) : cell := mkCell (c_cp c) (c_w c) (c_cs c) (c_at c) (c_comb c ++ [cp]).
+Definition combine_at (row : list cell) (idx cp : Z) : list cell :=
+  match nthz row idx with
+  | Some c => takez idx row ++ add_comb c cp :: dropz (idx + 1) row
+  | None => row
+  end.
+Definition put_zero (t : term) (cp : Z) : term :=
+  let idx := if t_pending t then t_x t else t_x t - 1 in
+  let row := get_row (t_grid t) (t_y t) in
+  let idx := match nthz row idx with Some c => if c_w c =? 0 then idx - 1 else idx | None => idx end in
+  match nthz row idx with
+  | Some _ => set_grid t (set_row (t_grid t) (t_y t) (combine_at row idx cp))
+  | None => t
+  end.
+
 Definition put (t : term) (cp w : Z) : term :=
-  if (w =? 0) || (t_cols t <? w) then t else
+  if w =? 0 then put_zero t cp else
+  if t_cols t <? w then t else
   let t1 := if t_pending t || (t_cols t <? t_x t + w) then wrap t else t in
   let x := t_x t1 in
   let row := get_row (t_grid t1) (t_y t1) in
   let cs := cur_cs t1 in
-  let cells := mkCell cp w cs (t_attr t1) :: (if w =? 2 then [mkCell (-1) 0 cs (t_attr t1)] else []) in
+  let cells := mkCell cp w cs (t_attr t1) [] :: (if w =? 2 then [mkCell (-1) 0 cs (t_attr t1) []] else []) in
   let row' := if t_irm t1 then takez (t_cols t1) (takez x row ++ cells ++ dropz x row)
               else takez x row ++ cells ++ dropz (x + w) row in
   let t2 := set_grid t1 (set_row (t_grid t1) (t_y t1) (fix_split false row')) in
@@ -181,7 +201,7 @@ Definition clampz (lo hi v : Z) : Z := Z.min (Z.max v lo) hi.
 Definition arg1 (n : Z) : Z := if n =? 0 then 1 else n.
 
 Definition erase_cell (t : term) : cell :=
-  mkCell 32 1 0 (mkAttr CDef (if t_bce t then a_bg (t_attr t) else CDef) false false false false false false).
+  mkCell 32 1 0 (mkAttr CDef (if t_bce t then a_bg (t_attr t) else CDef) false false false false false false) [].
 
 Definition step (t : term) (k : tok) : term :=
   match k with
@@ -222,12 +242,12 @@ Fixpoint wide_pairs (n : nat) (room : Z) : list cell :=
   match n with
   | O => []
   | S k => if 2 <=? room
-           then mkCell 19990 2 0 garbage_attr :: mkCell (-1) 0 0 garbage_attr :: wide_pairs k (room - 2)
+           then mkCell 19990 2 0 garbage_attr [] :: mkCell (-1) 0 0 garbage_attr [] :: wide_pairs k (room - 2)
            else []
   end.
 
 Definition scramble_row (cols kind : Z) : list cell :=
-  let g := mkCell 35 1 0 garbage_attr in
+  let g := mkCell 35 1 0 garbage_attr [] in
   let lead := if (kind =? 2) && (0 <? cols) then [g] else [] in
   let mid := if (kind =? 1) || (kind =? 2) then wide_pairs (Z.to_nat cols) (cols - zlen lead) else [] in
   lead ++ mid ++ repeat g (Z.to_nat (cols - zlen lead - zlen mid)).
@@ -297,7 +317,7 @@ Definition enc_attr (a : vattr) : list Z :=
   enc_color (a_fg a) ++ enc_color (a_bg a)
   ++ [ (if a_bold a then 1 else 0) + (if a_ital a then 2 else 0) + (if a_under a then 4 else 0)
        + (if a_blink a then 8 else 0) + (if a_stand a then 16 else 0) + (if a_strike a then 32 else 0) ].
-Definition enc_cell (c : cell) : list Z := [c_cp c; c_w c; c_cs c] ++ enc_attr (c_at c).
+Definition enc_cell (c : cell) : list Z := [c_cp c; c_w c; c_cs c] ++ enc_attr (c_at c) ++ zlen (c_comb c) :: c_comb c.
 
 Definition snapshot (t : term) : list Z :=
   [t_cols t; t_rows t; t_x t; t_y t; enc_bool (t_pending t); enc_bool (t_visible t); enc_bool (t_scrolled t);
